@@ -702,6 +702,13 @@ class FD:
                 return recv.pop(*args)
             except IndexError:
                 raise Raised('IndexError', 'pop from empty list')
+        if isinstance(recv, set) and attr in ('add', 'discard', 'remove', 'update', 'clear', 'pop'):
+            try:
+                return getattr(recv, attr)(*args)
+            except KeyError:
+                raise Raised('KeyError', 'set.%s' % attr)
+            except TypeError as ex:
+                raise Raised('TypeError', str(ex))
         if isinstance(recv, dict) and attr in ('items', 'keys', 'values'):
             return list(getattr(recv, attr)())
         if isinstance(recv, dict) and attr in ('update', 'setdefault', 'clear', 'pop'):
